@@ -108,6 +108,51 @@ func (ex *Exec) initStubs() {
 	upred("unicode.IsLetter", unicode.IsLetter)
 	upred("unicode.IsDigit", unicode.IsDigit)
 	t["strconv.ParseInt"] = stubParseInt
+	t["strconv.Itoa"] = func(ex *Exec, st *State, fr *Frame, args []Value, in ssa.Instruction) (Value, *forkReq) {
+		t := args[0].(*smt.Term)
+		return ex.normStr([]StrAlt{{P: []Piece{{Dec: ex.st.Resize(t, 64, true), Signed: true}}}}), nil
+	}
+	// sync.Mutex in a sequential harness: the lock word is tracked so that a
+	// second Lock of a held mutex (a self-deadlock, or contention between
+	// coroutines) is reported instead of being silently passed
+	lockWord := func(ex *Exec, st *State, args []Value) (*Ptr, *smt.Term) {
+		p := args[0].(*Ptr)
+		fp := &Ptr{Obj: p.Obj, Path: append(append([]PathElem(nil), p.Path...), PathElem{Field: 0})}
+		w, ok := ex.load(st, fp).(*smt.Term)
+		if !ok || !w.IsConst() {
+			panic(unsupported("mutex with symbolic state"))
+		}
+		return fp, w
+	}
+	setWord := func(ex *Exec, st *State, fp *Ptr, v uint64, w int) {
+		// not a data write: bypass the shared-state accounting of store
+		st.Heap[fp.Obj] = ex.navStore(st.Heap[fp.Obj], fp.Path, ex.st.BV(v, w))
+	}
+	for _, typ := range []string{"sync.Mutex", "sync.RWMutex"} {
+		for _, m := range []string{"Lock", "RLock"} {
+			t["(*"+typ+")."+m] = func(ex *Exec, st *State, fr *Frame, args []Value, in ssa.Instruction) (Value, *forkReq) {
+				if _, isRW := ex.load(st, args[0].(*Ptr)).(*StructV).Fields[0].(*StructV); isRW {
+					return nil, nil // RWMutex: first field is the embedded Mutex; treated as uncontended
+				}
+				fp, w := lockWord(ex, st, args)
+				if w.Val != 0 {
+					panic(unsupported("Lock of a held mutex (contention is outside the sequential model)"))
+				}
+				setWord(ex, st, fp, 1, w.W)
+				return nil, nil
+			}
+		}
+		for _, m := range []string{"Unlock", "RUnlock"} {
+			t["(*"+typ+")."+m] = func(ex *Exec, st *State, fr *Frame, args []Value, in ssa.Instruction) (Value, *forkReq) {
+				if _, isRW := ex.load(st, args[0].(*Ptr)).(*StructV).Fields[0].(*StructV); isRW {
+					return nil, nil
+				}
+				fp, w := lockWord(ex, st, args)
+				setWord(ex, st, fp, 0, w.W)
+				return nil, nil
+			}
+		}
+	}
 	ex.initIOStubs()
 	ex.initCLIStubs()
 }
